@@ -230,3 +230,19 @@ PROPS["C03"] = {
     "regress": ["msgpack_wildcard_over_array"],
     "fuzz": True,
 }
+
+PROPS["C04"] = {
+    "title": "The document is the tree its API describes, after every history",
+    "src": "c04.cpp",
+    "level": "exploration",
+    "technique": "model-based (stateful) property testing: operations generated from a plain ordered-tree model, executed on the library, every observable and every live reference compared after every step; bounded-exhaustive enumeration of all histories of <= N operations over a 26-operation alphabet on tiny pools; internal invariants through the inspector hook",
+    "rule": "random: histories of 20-400 operations on 1-3 documents (set of every scalar type and string source kind, to<>, add, add<T>, member/element writes through documents, variants, proxies of depth 1-3 and JsonArray/JsonObject handles incl. writes beyond the end, removal by index/key/iterator, clear, copies between values of the same or another document, copyArray, copy/move construction and assignment, swap, shrinkToFit, deserialization into documents/values/proxies, handle acquisition by reads, read-only probes); non-trivial = the history contains an insertion after a removal, a copy between values or a document-level move/swap/assign, and at least one live reference survived >= 3 mutations; distinct = hash of the operation list. enum: every sequence of N operations over a fixed 26-operation alphabet (counted per distinct sequence).",
+    "level_text": "Exploration of the history space with the tree model as oracle: after every operation the observation of every document and of every still-existing reference must equal the model exactly, return values must match where the API defines them, reads must not change anything nor call the allocator, and the slot pools / free list / string reference counts must satisfy their invariants. Short histories on 2- and 4-slot pools are enumerated exhaustively.",
+    "level_note": "Assignments in which source and destination overlap inside one document are excluded while known finding KF-2 (alias_overlap) is open; they are counted under excluded_known. References are considered dead after document-level operations and shrinkToFit (slots may move).",
+    "quick": {"configs": ["default", "g1_2_2_1", "g1_4_1_1", "g2_128_4_2"], "cases": 16000, "floor_evaluations": 400000, "floor_nontrivial": 100000,
+              "per_config": {"g1_2_2_1": {"enum_draws": 4, "params": {"enum_depth": 4}}, "g1_4_1_1": {"enum_draws": 4, "params": {"enum_depth": 4}}},
+              "exhaustive_claim": True, "exhaustive_note": "all histories of 4 operations over the 26-operation alphabet on pool geometries (1,2,2,1) and (1,4,1,1)"},
+    "thorough": {"configs": ["default", "g1_2_2_1", "g1_4_1_1", "g2_128_4_2", "g1_16_4_1", "g2_2_1_4", "g4_2_1_1"], "cases": 800000, "floor_evaluations": 4000000,
+                 "per_config": {"g1_2_2_1": {"enum_draws": 5, "params": {"enum_depth": 5}}, "g1_4_1_1": {"enum_draws": 5, "params": {"enum_depth": 5}}},
+                 "exhaustive_claim": True, "exhaustive_note": "all histories of 5 operations over the 26-operation alphabet on pool geometries (1,2,2,1) and (1,4,1,1)"},
+}
